@@ -3,6 +3,7 @@ package rules
 import (
 	"fmt"
 	"go/ast"
+	"sort"
 	"strings"
 
 	"pigeonverif/internal/load"
@@ -69,6 +70,7 @@ func C15(c *Ctx) {
 			"the loop over "+src+" ignores "+ic+": the general path tests the folded rune against these members, the table tests the raw rune ([\\p{Lu}]i matches 'A' only with -optimize-basic-latin)")
 	}
 	basicLatinCaseClosure(c, "C15-a")
+	basicLatinNoSkips(c, "C15-a")
 	// ---- c
 	wc := load.FuncDecl(bp, "builder", "writeCharClassMatcher")
 	okEmit := false
@@ -248,4 +250,94 @@ func basicLatinCaseClosure(c *Ctx, rule string) {
 		r.Check(ok, rule, construct, "", g.Where(loop.Pos()), "the member itself plus, under "+ic+", both its upper-case and lower-case twin",
 			fmt.Sprintf("member stored=%t, upper-case twin under %s=%t, lower-case twin under %s=%t: the raw members are passed in, so a member written in one case lacks its twin in the other ([XYZ]i would not match x with -optimize-basic-latin)", raw, ic, up, ic, low))
 	}
+}
+
+// basicLatinNoSkips: the table must decide every one of the 128 runes by the same membership predicate the general
+// path uses. Each member loop may be guarded only by the range tests (< 128, within the range), the ignoreCase flag,
+// the case tests and unicode.Is; it may not skip members or runes by any other condition, continue, break or return.
+func basicLatinNoSkips(c *Ctx, rule string) {
+	r := c.R
+	g := c.G()
+	if g == nil {
+		return
+	}
+	fd := load.FuncDecl(g.Pkg("builder"), "", "BasicLatinLookup")
+	if fd == nil {
+		return
+	}
+	var params []string
+	for _, f := range fd.Type.Params.List {
+		for _, n := range f.Names {
+			params = append(params, n.Name)
+		}
+	}
+	if len(params) != 4 {
+		return
+	}
+	ic := params[3]
+	allowedGuard := func(gd string) bool {
+		gd = strings.TrimPrefix(strings.TrimSuffix(strings.TrimPrefix(gd, "!("), ")"), "!")
+		switch {
+		case gd == ic:
+			return true
+		case strings.HasSuffix(gd, "<128"):
+			return true
+		case strings.HasPrefix(gd, "unicode.IsLower(") || strings.HasPrefix(gd, "unicode.IsUpper("):
+			return true
+		case strings.HasPrefix(gd, "unicode.Is("):
+			return true
+		}
+		return false
+	}
+	var bad []string
+	nStores := 0
+	for _, st := range fd.Body.List {
+		var loopBody *ast.BlockStmt
+		switch x := st.(type) {
+		case *ast.RangeStmt:
+			loopBody = x.Body
+		case *ast.ForStmt:
+			loopBody = x.Body
+		default:
+			continue
+		}
+		ast.Inspect(loopBody, func(n ast.Node) bool {
+			switch x := n.(type) {
+			case *ast.BranchStmt:
+				bad = append(bad, g.Where(x.Pos())+": `"+x.Tok.String()+"` skips members or runes under ["+strings.Join(guardsOf(loopBody, x.Pos()), ";")+"]")
+			case *ast.ReturnStmt:
+				bad = append(bad, g.Where(x.Pos())+": return inside a member loop")
+			case *ast.ForStmt:
+				// inner rune loops must cover the whole Basic Latin block they are responsible for
+				if x.Cond != nil {
+					cond := nospace(x.Cond)
+					if !(strings.Contains(cond, "<128")) {
+						bad = append(bad, g.Where(x.Pos())+": inner loop bound `"+cond+"` does not run up to 128")
+					}
+				}
+			case *ast.AssignStmt:
+				if ix, ok := x.Lhs[0].(*ast.IndexExpr); ok && strings.HasSuffix(nospace(ix.X), "basicLatinChars") {
+					nStores++
+					for _, gd := range guardsOf(loopBody, x.Pos()) {
+						if !allowedGuard(gd) {
+							bad = append(bad, g.Where(x.Pos())+": table entry stored under the extra condition `"+gd+"`")
+						}
+					}
+				}
+			}
+			return true
+		})
+	}
+	// the class loop starts its rune loop at 0
+	ast.Inspect(fd.Body, func(n ast.Node) bool {
+		if f, ok := n.(*ast.ForStmt); ok && f.Init != nil && f.Cond != nil && nospace(f.Cond) == "r<128" {
+			if as, ok := f.Init.(*ast.AssignStmt); ok && nospace(as.Rhs[0]) != "rune(0)" && nospace(as.Rhs[0]) != "0" {
+				bad = append(bad, g.Where(f.Pos())+": rune loop over the class starts at "+nospace(as.Rhs[0]))
+			}
+		}
+		return true
+	})
+	sort.Strings(bad)
+	r.Check(len(bad) == 0 && nStores >= 6, rule, "G.builder.BasicLatinLookup:decides-all-128-runes-by-membership-only", "", g.Where(fd.Pos()),
+		fmt.Sprintf("%d table stores, guarded only by range/case/membership tests; no skipping", nStores), strings.Join(bad, "; ")+": the general path tests every class with unicode.Is for every rune, so the table may not skip any")
 }
